@@ -77,7 +77,7 @@ def oracle(ctx, svc, snap, start, reqs, race, schedule):
 
 def run_worker(ctx):
     engc.run_cases(ctx, cgen.provider_race_case, oracle,
-                   examples=ctx.pick(8, 120))
+                   examples=ctx.pick(8, 80))
 
 
 def replay(ctx, data):
